@@ -6,6 +6,9 @@
   R-TAIL-MAP   cons::ListIter::next moves to Cons / Exhausted / Dot exactly for a Cons / Null / other cdr
                (outcome map over all 11 value kinds)
   R-ALIST      association-list lookup over synthetic lists with concrete key texts
+  R-TRAVERSE   Value::append / list, Cons::to_vec / into_vec / to_ref_vec, Value::to_vec / to_ref_vec, is_list /
+               is_dotted_list, positional indexing and Cons::iter evaluated on structural chains (0..3 elements x six
+               kinds of tail): each gives the documented (xs, t) answer
   R-CLONE-ID   the hand-written iterative Cons::clone, evaluated over structural chains (1..3 cells, six kinds
                of tail, nested chains), gives back the structure it was given
   thorough     the same over the exact monomorphic reachability from the roots crate's
@@ -60,6 +63,11 @@ def run(ctx):
                                 "every other kind (incl. #nil) is a dotted tail")
     n = tailmap.check(rt, lexpr, which=("cons",))
     rt.floor("cdr-kinds", n)
+    from .. import listeval
+    rtv = ctx.rule("R-TRAVERSE", "construction (append / list), the vector conversions (owned, cloned, by reference), the "
+                                 "proper / dotted predicates, positional indexing and cell iteration give the documented "
+                                 "result on structural chains of 0..3 elements with every kind of tail")
+    listeval.check(rtv, lexpr, ctx.tier == "thorough")
     from .. import cloneid
     rc = ctx.rule("R-CLONE-ID", "the hand-written, iterative Cons::clone gives back the cells, elements and tail it was given")
     cloneid.check_cons(rc, lexpr, ctx.tier == "thorough")
